@@ -33,8 +33,8 @@ LEVEL_NOTE = "Trusts the GFA1 line grammar in mc/rgfa.py (TAG:TYPE:VALUE with th
 DESIGN_REF = "DESIGN.md §4 C07"
 EXHAUSTIVE = True
 
-S_TAGS = ["LN:i:3", "SN:Z:chr1", "SO:i:0", "SR:i:0", "xf:f:-0.5", "zs:Z:a:b#c.d", "ba:B:i,1,-2", "hx:H:1AE3", "ch:A:*", "xi:i:-7"]
-L_TAGS = ["SR:i:0", "L1:i:3", "zs:Z:x:y", "fl:f:1e-05", "ba:B:f,0.5"]
+S_TAGS = ["LN:i:3", "SN:Z:chr1", "SO:i:0", "SR:i:0", "xf:f:-0.5", "zs:Z:a:b#c.d", "ba:B:i,1,-2", "hx:H:1AE3", "ch:A:*", "xi:i:-7", "co:Z:two words"]
+L_TAGS = ["SR:i:0", "L1:i:3", "zs:Z:x:y", "fl:f:1e-05", "ba:B:f,0.5", "co:Z:checked by hand"]
 OVERLAPS = ["0M", "5M", "12M"]
 OTHER = ["H\tVN:Z:1.0", "# a comment", "P\tp1\ts1+,s2+\t*", "W\tsample\t1\tchr1\t0\t5\t>s1>s2"]
 NSHARD = {"quick": 16, "thorough": 64}
@@ -240,15 +240,20 @@ def tags_part(res, scratch):
 # (i) order_gfa outputs
 
 
-def judge_order_outputs(res, scratch, g, chains, chrom_order, by_chrom, with_sequence, what, second_run=False):
+def judge_order_outputs(res, scratch, g, chains, chrom_order, by_chrom, with_sequence, what, second_run=False, lfirst_nonl=False):
     res.next_call()
-    run = oc.run_order(scratch, g.text(), chrom_order, by_chrom=by_chrom, with_sequence=with_sequence)
+    gtext = g.text()
+    if lfirst_nonl:
+        # L lines first, S lines after them, no newline after the last line
+        ls = [l for l in gtext.split("\n") if l]
+        gtext = "".join(l + "\n" for l in [x for x in ls if x.startswith("L")] + [x for x in ls if not x.startswith("L")])[:-1]
+    run = oc.run_order(scratch, gtext, chrom_order, by_chrom=by_chrom, with_sequence=with_sequence)
     if second_run:
         # the same command once more into the directory that now holds the first run's files: what is judged is the second result
         run = oc.run_order(scratch, g.text(), chrom_order, by_chrom=by_chrom, with_sequence=with_sequence, keep_outdir=True)
         res.count("second_runs_into_the_same_directory")
     res.evaluations += 1
-    case = {"mode": "order", "gfa": g.text(), "chromosome_order": chrom_order, "by_chrom": by_chrom, "with_sequence": with_sequence, "second_run": second_run}
+    case = {"mode": "order", "gfa": g.text(), "chromosome_order": chrom_order, "by_chrom": by_chrom, "with_sequence": with_sequence, "second_run": second_run, "lfirst_nonl": lfirst_nonl}
     if run.outcome.kind != "ok":
         res.fail(f"C07/order:failed:{run.outcome.sig()}", f"{what}: {run.outcome.brief()}", case)
         return
@@ -320,6 +325,20 @@ def order_part(res, spec, tier, scratch):
                 for with_seq in (False, True):
                     judge_order_outputs(res, scratch, c.g, [c], "chr1", by_chrom, with_seq, f"[{name}] by_chrom={by_chrom} with_sequence={with_seq}")
             judge_order_outputs(res, scratch, oc.stale_tagged(c.g), [c], "chr1", True, True, f"[{name}] stale BO/NO tags")
+            judge_order_outputs(res, scratch, c.g, [c], "chr1", True, True, f"[{name}] L lines first, no final newline", lfirst_nonl=True)
+            # the same chain with every haplotype (rank > 0) segment stripped of its tags (plain GFA segments inside an rGFA)
+            bare = rgfa.Graph()
+            for sg in c.g.segs.values():
+                bare.add_seg(sg.id, sg.seq, list(sg.tags) if sg.SR == 0 else [])
+            bare.links = list(c.g.links)
+            if sum(1 for sg in bare.segs.values() if not sg.tags) >= 2:
+                class CB:
+                    pass
+
+                cb = CB()
+                cb.g, cb.chrom, cb.order = bare, c.chrom, c.order
+                judge_order_outputs(res, scratch, bare, [cb], "chr1", True, True, f"[{name}] haplotype segments without tags")
+                res.count("runs_with_tagless_segments")
             g2 = gen.merge_graphs([c.g, second.g])
             for req in ("chr1,chr2", "chr2,chr1", "chr2"):
                 for by_chrom in (True, False):
@@ -398,5 +417,5 @@ def replay(case, scratch):
         names = [s.SN for s in sub.segs.values() if s.SR == 0]
         c.g, c.order, c.chrom = sub, gen.chain_order_by_model(sub) or [], max(set(names), key=names.count) if names else "?"
         chains.append(c)
-    judge_order_outputs(res, scratch, g, chains, case["chromosome_order"], case["by_chrom"], case["with_sequence"], "replay", second_run=bool(case.get("second_run")))
+    judge_order_outputs(res, scratch, g, chains, case["chromosome_order"], case["by_chrom"], case["with_sequence"], "replay", second_run=bool(case.get("second_run")), lfirst_nonl=bool(case.get("lfirst_nonl")))
     return res.failures
